@@ -40,6 +40,7 @@ LEVEL_NOTE = "trusts fork()ed pristine processes as the definition of 'run alone
 
 POOL_SRC = '''
 import collections, dataclasses, datetime, decimal, enum, fractions, pathlib, typing, uuid
+import pendulum
 from typing import *
 
 @dataclasses.dataclass
@@ -110,7 +111,9 @@ TYPES = {
                  ["'2020-01-01T05:00:00+05:00'", "'2020-01-01T00:00:00+00:00'", "1577836800", "1577836800.0", "'PT1H'", "'P1D'", "'2031-05-06'"]),
     "date": ("datetime.date", ["datetime.date(2031, 5, 6)"], ["'2031-05-06'", "'PT1H'", "'05:00:00+05:00'", "1577836800", "'2020-01-01T05:00:00+05:00'"]),
     "time": ("datetime.time", ["datetime.time(5, 0, tzinfo=P5)", "datetime.time(0, 0, tzinfo=UTC)"], ["'05:00:00+05:00'", "'00:00:00+00:00'", "'PT1H'", "'2031-05-06'"]),
-    "timedelta": ("datetime.timedelta", ["datetime.timedelta(days=1)", "datetime.timedelta(hours=24)"], ["'P1D'", "'PT24H'", "86400", "86400.0", "'PT1H'", "'2031-05-06'", "'05:00:00+05:00'", "'2020-01-01T05:00:00+05:00'"]),
+    "timedelta": ("datetime.timedelta", ["datetime.timedelta(days=1)", "datetime.timedelta(hours=24)",
+                                           # equal and equal-hashed, but a different class with its own text form
+                                           "datetime.timedelta(days=30)", "pendulum.duration(months=1)", "pendulum.duration(days=30)"], ["'P1D'", "'PT24H'", "86400", "86400.0", "'PT1H'", "'2031-05-06'", "'05:00:00+05:00'", "'2020-01-01T05:00:00+05:00'"]),
     "list[int]": ("list[int]", ["[1, 2]", "[True, 1.0]"], ["'[1, 2]'", "b'[1, 2]'", "[1, 2]", "['1', '2']", "(1, 2)"]),
     "AL": ("AL", ["[1, 2]"], ["'[1, 2]'", "[1, 2]"]),
     "dict[str, list[int]]": ("dict[str, list[int]]", ["{'a': [1]}"], ["'{\"a\": [1]}'", "{'a': [1]}", "{'a': ['1']}"]),
